@@ -25,6 +25,10 @@ def _slice_answers(mod, cases, answers):
     return out
 
 
+def _skipped(io):
+    return isinstance(io, dict) and io.get('skipped') == 'deadline'
+
+
 def evaluate(mod, cases, want_model=True):
     """Run implementation and model on the cases. Returns list of result dicts."""
     modname = mod.__name__
@@ -37,6 +41,9 @@ def evaluate(mod, cases, want_model=True):
         counts = []
         with_impl = getattr(mod, 'model_requests_impl', None)
         for c, io in zip(cases, impl):
+            if _skipped(io):
+                counts.append(0)
+                continue
             # optional hook: requests that quote observations of the implementation (e.g. the
             # hierarchy after structural updates modelled elsewhere); default: from the case only
             rs = with_impl(c, io) if with_impl else mod.model_requests(c)
@@ -48,10 +55,15 @@ def evaluate(mod, cases, want_model=True):
         else:
             i = 0
             for k, c in enumerate(cases):
-                model[k] = mod.model_obs(c, ans[i:i + counts[k]])
+                if not _skipped(impl[k]):
+                    model[k] = mod.model_obs(c, ans[i:i + counts[k]])
                 i += counts[k]
     results = []
     for c, io, mo in zip(cases, impl, model):
+        if _skipped(io):
+            # not run (the wall-clock limit of the check was reached): nothing to judge
+            results.append({'case': c, 'impl': io, 'model': None, 'fails': [], 'mismatch': None})
+            continue
         fails = []
         try:
             fails = list(mod.oracle(c, io) or [])
@@ -196,7 +208,16 @@ def run(mod, prop, tier, seed, budget_override):
     corpus = list(mod.corpus())
     generated = list(mod.generate(rng, n, tier))
     cases = corpus + generated
+    # the implementation runs of the main pass stop at a wall-clock limit (quick: 10 min, thorough: 90 min;
+    # VERIF_DEADLINE_S overrides): what has been run by then is judged
+    limit = float(os.environ.get('VERIF_DEADLINE_S') or {'quick': 600, 'thorough': 5400}.get(tier, 600))
+    lib.DEADLINE = time.time() + limit
     results, model_error = evaluate(mod, cases)
+    lib.DEADLINE = None
+    skipped = sum(1 for r in results if isinstance(r['impl'], dict) and r['impl'].get('skipped') == 'deadline')
+    if skipped:
+        notes.append(f'{skipped} of {len(cases)} cases were not run: the {int(limit)} s limit for the implementation '
+                     f'runs was reached')
     if model_error:
         proof_problems.append('model driver failed: ' + model_error)
     # confirm every suspicious case in isolation (fresh worker) before believing it: a watchdog
@@ -328,6 +349,7 @@ def run(mod, prop, tier, seed, budget_override):
     # ---- evidence
     distinct = set()
     nontrivial = 0
+    results = [r for r in results if not _skipped(r['impl'])]      # what was not run is not evidence
     for r in results:
         h = lib.case_hash(r['case'])
         if h in distinct:
